@@ -5,6 +5,7 @@ INVARIANT OutIndexIsHost
 INVARIANT SuccessIsComplete
 INVARIANT NoChallengeNoCredentials
 INVARIANT FaultMeansFailure
+INVARIANT CrashIsEarly
 INVARIANT KeyStageFirst
 INVARIANT EmitInv
 PROPERTY Terminates
